@@ -168,7 +168,27 @@ def rule_hmac(model, rep):
 def run(model, rep):
     rep.explanation = __doc__
     rule_kernel(model, rep)
+    rule_digest_size_agreement(model, rep)
     rule_time(model, rep)
     rule_keys(model, rep)
     rule_key_caches(model, rep)
     rule_hmac(model, rep)
+
+
+def rule_digest_size_agreement(model, rep, R="C13.a-truncation-kernel"):
+    """the dynamic truncation reads 4 bytes at an offset of up to 15: the digest must have at least 19 (RFC 4226: 20) bytes. The constructor is
+    where an algorithm is accepted or refused, so its lower bound on the digest size has to cover what `_generate()` reads"""
+    init = model.func(T, "TOTP.__init__")
+    unit = model.unit(T)
+    guards = [g for g in walk_no_nested(init) if isinstance(g, ast.If) and isinstance(g.test, ast.Compare) and len(g.test.ops) == 1 and ast.unparse(g.test.left) == "digest_size"
+              and isinstance(g.test.ops[0], (ast.Lt, ast.LtE)) and g.body and isinstance(g.body[-1], ast.Raise)]
+    s = site("TOTP.__init__") + " digest size"
+    if len(guards) != 1:
+        rep.undecided(R, s, f"{len(guards)} lower bounds on digest_size in the constructor")
+        return
+    k = model.fold(unit, guards[0].test.comparators[0])
+    least = (k if isinstance(guards[0].test.ops[0], ast.Lt) else k + 1) if isinstance(k, int) else None      # smallest accepted size
+    need = 0xF + 4
+    rep.check(least is not None and least >= need, R, s, f"`{ast.unparse(guards[0].test)}` accepts digests of {least} bytes and more; _generate() reads digest[offset:offset + 4] with offset <= 15",
+              f"every accepted algorithm has a digest of at least {need} bytes (what the truncation reads)",
+              witness="TOTP(key, alg='md5') and from_uri('...&algorithm=MD5') are accepted, then every generate() / match() raises AssertionError (struct.error or a short read under python -O)")
